@@ -9,7 +9,7 @@ export GOFLAGS=-mod=mod GOPROXY=off GOSUMDB=off GOTOOLCHAIN=local
 cd /verif
 onlyprop=""
 if [ "$1" = "--prop" ]; then onlyprop=$2; set -- ""; fi
-evd=/tmp/selftest-evidence${onlyprop:+-$onlyprop}
+evd=/tmp/selftest-evidence${onlyprop:+-$onlyprop}-$$
 fail=0; n=0
 for d in selftest/mutants/*/ seeded/*/; do
   [ -f "$d/patch.diff" ] || continue
